@@ -436,7 +436,12 @@ def ktimer_cases(seed, methods=METHODS):
                     ("clk 70000000 ; kreg k1", "nop", ["on k1 1 : ?kreg k1", "on k1 2 : ?kreg k1"]),
                     ("clk 70000000 ; kreg k1", "xpost e0", ["on k1 1 : ?kreg k1"]),
                     ("clk 70000000", "wr f0 1 ; xpost e0", []),
-                    ("clk 59999000", "xpost e0", [])]):
+                    ("clk 59999000", "xpost e0", []),
+                    # the handler looks at iv_now first (the cached clock is valid from then on) and only then runs across the expiry: the
+                    # timer must not be run against a fresher clock than the one iv_now shows inside its handler
+                    ("valid ; clk 70000000", "nop", []),
+                    ("valid ; clk 70000000", "xpost e0", []),
+                    ("valid ; clk 60000000 ; kreg k1", "nop", ["on k1 1 : nop"])]):
                 L = ([f"exclude {m}"] if m else []) + ["cfg waitlimit=40 cblimit=300", "obj fd f0 sock", "obj timer t0", "obj timer t2", "obj timer t9",
                      "obj event e0", "obj task k1", "on f0.in * : rd f0", f"on f0.in {k} : {hact}", "on t9 1 : ?unreg f0 ; ?evunreg e0 ; ?tunreg t2"] + extra
                 for w in range(k):
